@@ -45,7 +45,11 @@ func (p paramFlags) Set(s string) error {
 }
 
 func newSolver(logPath string, timeoutMs int) *smt.Solver {
-	sol, err := smt.NewSolver(timeoutMs)
+	var argv []string
+	if sv := os.Getenv("QSYM_SOLVER"); sv != "" {
+		argv = strings.Fields(sv)
+	}
+	sol, err := smt.NewSolver(timeoutMs, argv...)
 	if err != nil {
 		fmt.Fprintln(os.Stderr, "cannot start solver:", err)
 		os.Exit(2)
